@@ -6,7 +6,6 @@ from sa.core.terms import C, isc, mk, mk_bop, mk_not, post, show
 
 SETUP_SITES = {
     ('pagingtracer', 'Memory.__init__'): 'constructor applies the initial 0x7FFD value',
-    ('trace', 'run'): 'applies the snapshot/option 0x7FFD value before the first instruction',
 }
 
 def _enclosing(mod):
@@ -83,7 +82,7 @@ def python_sites(ctx, repo, rule='C08.3-sites', floor=9):
                     ctx.ok({'site': where, 'function': qual, 'kind': 'set-up', 'reason': SETUP_SITES[key]})
                 else:
                     ctx.violation('%s %s' % (mod.name, qual), where,
-                                  'out7ffd() is called from %s, which is neither a port-write handler nor a known set-up site: paging can change without a write to port 0x7FFD' % qual)
+                                  'out7ffd() of the Python memory object is called from %s, which is neither a port-write handler nor the memory constructor: paging changes without a write to port 0x7FFD, and a C simulator built on that memory keeps its own bank pointers, so the two disagree about what is paged in' % qual)
                 continue
             sites += 1
             conj = _conjuncts(tests)
